@@ -16,6 +16,14 @@
   normaliser): subscription is curried, `Dict[K, V]` is `app (app (con "Dict") K) V`.
   Not modelled: TypeVarTuple / Unpack (`_unpack_args`, the slicing branch of
   `_get_type_var_to_actual`), ParamSpec, TypeVar defaults (3.13), ForwardRef bounds.
+
+  `Hint.hasTV`, `Hint.isGeneric` and `parametrizeByDict` are structural here; the
+  library computes them from attributes of the Python object that represents
+  the hint (`__parameters__`, its class, its origin), and one type has several
+  spellings (`Optional[list[T]]`, `list[T] | None`, ...).  That layer is modelled
+  in `GenericTypeVars.lean` and proved to coincide with the structural functions
+  for every spelling (Props/C16.lean: `hasTV_is_code`, `isGeneric_is_code`,
+  `parametrize_by_dict_is_code`).
 -/
 namespace Adaptix.Generic
 
